@@ -731,6 +731,33 @@ class C12(Prop):
                         rec(prefix + [q], dict(DB._default_cache), depth + 1)
             rec([], {}, 0)
             obs["exh"] = {"n": count[0], "bad": bad}
+        # the current directory changes between two lookups of the same relative target (None, ".", a relative name):
+        # the second answer comes from a warm cache and must equal a fresh load made in the new directory (O only:
+        # the model's world has one current directory)
+        rel = [q for q in queries.values() if q["t"] is None or not plain_target(case, q["t"]).startswith("/")]
+        dirs = sorted(k for k, n in w.index.items() if "ch" in n and _safe_path(k) and k != case["cwd"])
+        if rel and dirs:
+            here = os.getcwd()
+            bad, n = [], 0
+            try:
+                for q in rel[:3]:
+                    for d in (dirs[:1] + dirs[-1:] + dirs[len(dirs) // 2:len(dirs) // 2 + 1]):
+                        real_d = w.R + (d if d != "/" else "")
+                        if not os.path.isdir(real_d):
+                            continue
+                        os.chdir(here)
+                        DB._default_cache.clear()
+                        w.lookup(q)
+                        os.chdir(real_d)
+                        got = ser_db(w.lookup(q), memo)
+                        DB._default_cache.clear()
+                        want = ser_db(w.lookup(q), memo)
+                        n += 1
+                        if got != want and len(bad) < 3:
+                            bad.append({"q": q, "cwd2": d, "got": got, "want": want})
+            finally:
+                os.chdir(here)
+            obs["chdir"] = {"n": n, "bad": bad}
         # clear_default_cache() with debug logging on (it then walks over the keys of the populated cache)
         import io
         from pyflyby._log import logger
@@ -817,6 +844,10 @@ class C12(Prop):
         if obs.get("exh") and obs["exh"]["bad"]:
             b = obs["exh"]["bad"][0]
             fails.append(dict(what="cached answer differs from a fresh load", history=b["history"], exhaustive=True,
+                              got=_short(b["got"]), want=_short(b["want"])))
+        if obs.get("chdir") and obs["chdir"]["bad"]:
+            b = obs["chdir"]["bad"][0]
+            fails.append(dict(what="cached answer differs from a fresh load", after_chdir_to=b["cwd2"], history=[b["q"], b["q"]],
                               got=_short(b["got"]), want=_short(b["want"])))
         for c in sorted(set(obs.get("clear", []))):
             fails.append(dict(what="clear_default_cache() does not leave an empty cache", detail=c))
@@ -1122,6 +1153,8 @@ class C12(Prop):
                     inc("lookups_cache_hit")
         if obs.get("exh"):
             inc("exhaustive_history_lookups", obs["exh"]["n"])
+        if obs.get("chdir"):
+            inc("lookups_after_change_of_current_directory", obs["chdir"]["n"])
         if "subproc" in obs:
             inc("fresh_interpreter_references")
 
